@@ -458,6 +458,34 @@ func checkWebUIMask(c *km.Ctx, s *km.Sem) {
 			}
 			walk(x.X)
 			walk(x.Y)
+		case *ssa.Extract:
+			// the value half of a comma-ok table lookup
+			if lk, isLk := x.Tuple.(*ssa.Lookup); isLk && x.Index == 0 {
+				walk(lk)
+				return
+			}
+			ok = false
+			bits = appendUniq(bits, "expr:"+km.ValStr(v))
+		case *ssa.Lookup:
+			// a bit looked up in a package-level table: every value the table can hold is judged
+			vals, tabOK := globalIntTableValues(c, x)
+			if !tabOK {
+				ok = false
+				bits = appendUniq(bits, "expr:"+km.ValStr(v))
+				return
+			}
+			for _, k := range vals {
+				if k&forbidden != 0 || k < 0 {
+					ok = false
+				}
+				if k != 0 {
+					if n, has := byVal[k]; has {
+						bits = appendUniq(bits, n)
+					} else {
+						bits = appendUniq(bits, sprintf("%#x", k))
+					}
+				}
+			}
 		default:
 			ok = false
 			bits = appendUniq(bits, "expr:"+km.ValStr(v))
@@ -618,7 +646,7 @@ func checkKeymasterSigned(c *km.Ctx, s *km.Sem, rule string) {
 		c.R.Add(rule, km.FuncName(fn), "deny list before success return", posOf(c, ret), "leaf key fingerprint compared with every KeyDenyFPsshSha256 entry; match => refusal", found, ok)
 	}
 	// (b) CA separation: on every path to a success return the chain anchor was compared with selfRoleCaCertDer
-	notRole := km.Prim{Name: "NotRoleCA", Direct: func(f km.Fact) bool {
+	notRole := km.Prim{Name: "NotRoleCA", Rel: func(f km.Fact, _ func(ssa.Value) ssa.Value) bool {
 		if f.Op == token.ILLEGAL && !f.Pol {
 			if cl, ok := f.X.(*ssa.Call); ok && km.CalleeFull(cl.Common()) == "bytes.Equal" {
 				a, b := cl.Common().Args[0], cl.Common().Args[1]
@@ -693,4 +721,56 @@ func isDenyElem(v ssa.Value) bool {
 	}
 	_, path, ok := km.FieldPath(ia.X)
 	return ok && strings.HasSuffix(path, "KeyDenyFPsshSha256")
+}
+
+// globalIntTableValues: the integer values a package-level map can hold, when the map is assigned once (in its
+// package initialiser), filled there with constant values only, and neither written nor emptied anywhere else.
+func globalIntTableValues(c *km.Ctx, lk *ssa.Lookup) ([]int64, bool) {
+	u, ok := km.Unwrap(lk.X).(*ssa.UnOp)
+	if !ok {
+		return nil, false
+	}
+	g, ok := u.X.(*ssa.Global)
+	if !ok || g.Pkg == nil {
+		return nil, false
+	}
+	st := singleStoreTo(c, g)
+	initFn := g.Pkg.Func("init")
+	if st == nil || initFn == nil || st.Parent() != initFn {
+		return nil, false
+	}
+	m := km.Unwrap(st.Val)
+	var vals []int64
+	good := true
+	for _, fn := range c.P.AllFuncs {
+		km.Instrs(fn, func(in ssa.Instruction) {
+			switch x := in.(type) {
+			case *ssa.MapUpdate:
+				mm := km.Unwrap(x.Map)
+				fromG := false
+				if l, isU := mm.(*ssa.UnOp); isU && l.X == ssa.Value(g) {
+					fromG = true
+				}
+				if mm != m && !fromG {
+					return
+				}
+				k, isC := km.ConstInt(x.Value)
+				if fn != initFn || !isC {
+					good = false
+					return
+				}
+				vals = append(vals, k)
+			case ssa.CallInstruction:
+				n := km.CalleeFull(x.Common())
+				if n == "builtin:delete" || n == "builtin:clear" || strings.HasPrefix(n, "maps.") {
+					for _, a := range x.Common().Args {
+						if l, isU := km.Unwrap(a).(*ssa.UnOp); isU && l.X == ssa.Value(g) {
+							good = false
+						}
+					}
+				}
+			}
+		})
+	}
+	return vals, good && len(vals) > 0
 }
